@@ -23,7 +23,7 @@ ASSUMPTIONS = [
     "TCP through real loopback sockets",
 ]
 MINIMUM = {"distinct": 300, "frames_decoded": 3000, "concurrent_runs": 20, "concurrent_frames": 2000}
-SHARD_TIMEOUT = {"quick": 200, "thorough": 2400}
+SHARD_TIMEOUT = {"quick": 120, "thorough": 2400}
 
 
 def shards(tier, seed):
